@@ -6,8 +6,8 @@ CATALOGUE = ["noauth", "plain", "emptysig", "shortsig", "randsig", "wrongkey", "
 
 RULE = ("for every suite with integrity (all 9) and commands of the pool: (1) every forged reply of the catalogue {authenticated flag "
         "cleared; unsigned plaintext; empty / short / random AuthCode; signed with another key; addressed to another / the BMC's / "
-        "the null session ID; correctly signed with a malformed confidentiality pad (wrong pad byte, pad length > 16, pad not "
-        "starting at 01)} - each carrying a well-formed response to the right command with a value the BMC never produced - "
+        "the null session ID; correctly signed with a malformed confidentiality pad (wrong last pad byte, pad length > 16, pad not "
+        "starting at 01, and for every pad length 0..15 every single position of one wrong pad byte)} - each carrying a well-formed response to the right command with a value the BMC never produced - "
         "delivered as the first reply, followed by the authentic one: predicate = the forged reply is treated as no response "
         "(one more transmission) and the value returned is the authentic one; a correctly protected control forgery must be "
         "accepted (non-vacuity); (2) every single-bit flip and every truncation of the authentic reply: predicate = the value "
@@ -37,7 +37,11 @@ def run(ch, build):
         for c in (cmds_fixed if not ch.quick() else rng.sample(cmds_fixed, 3)):
             scn = {"bmc": conn.default_bmc(seed=100 + k, suites=[[100, su[0], su[1], su[2]]]), "timeout_ms": 40, "steps": [
                 {"op": "open", "user": "admin", "password": b"secret".hex(), "priv": 4, "lookup": True, "suites": [list(su)]}]}
-            for f in CATALOGUE + ["valid"]:
+            # every pad length (0..15, through the length of the forged value) x every position of the one wrong pad byte
+            pads = ["padbyte:%d:%d" % (e, k) for e in range(16) for k in range(15)]
+            if ch.quick():
+                pads = ["padbyte:%d:0" % e for e in rng.sample(range(16), 4)] + rng.sample(pads, 8)
+            for f in CATALOGUE + pads + ["valid"]:
                 scn["steps"].append({"op": "cmd", "conn": "session", "cmd": c, "script": ["forge:" + f, "ok"], "forgery": f})
             scns.append(scn)
         # (2) bit flips and truncations of the authentic reply: learn its length from a clean run first
